@@ -10,7 +10,8 @@ tie:     harness/domain.py — real jump()/birth under scripted base draws again
 search:  harness/domain.py — the property's own oracle (membership, integrality, not the current
          integer, no NaN, refusal from outside, own density positive) on the real code over grids
          of boundary positions, poles, scales 1e-12..1e+12 x width, extreme base draws,
-         1..3 parameters, all conventions, adaptive variants at adapted scales
+         1..3 parameters, all conventions, adaptive variants at adapted scales; plus
+         proposed_position along runs of real chains of every family
 """
 import json
 import time
